@@ -1,4 +1,68 @@
-(* placeholder until the theorems are in place *)
-From GR Require Import Base Resp Redis.
-Theorem C18_placeholder : True. Proof. exact I. Qed.
-Print Assumptions C18_placeholder.
+(* C18 — the bundled example store returns what was stored.  Property theorems only.
+   The reference model the example server is compared with (by the correspondence run: every reply of every generated
+   program, plus a final-state probe) is Redis.dprim under the connection model.  These theorems are about that
+   reference, for EVERY database and EVERY operation: they are what "equals the reply of a reference Redis model"
+   buys — values come back byte for byte, lists keep push/pop order, sorted sets are ordered by score with one entry
+   per member, sets and hashes hold no duplicates, no empty container is left behind, and DEL / EXISTS / RENAME
+   reflect exactly the keys written. *)
+From Coq Require Import String QArith.
+From GR Require Import Base Resp Handler Exec Redis RedisFacts.
+Open Scope Z_scope.
+
+(* (1) the invariant of every reachable database: keys unique; a hash / set / sorted set holds one entry per field /
+   member; sorted sets have non-decreasing scores; no stored list, set, hash or sorted set is empty.  Preserved by
+   EVERY primitive operation with ANY arguments — hence by every program, by induction. *)
+Theorem C18_invariant_step : forall d c, wf_db d -> wf_db (fst (dprim d c)).
+Proof. exact dprim_wf. Qed.
+Print Assumptions C18_invariant_step.
+
+Theorem C18_invariant_programs : forall prog d, wf_db d -> wf_db (fold_left (fun dd c => fst (dprim dd c)) prog d).
+Proof. induction prog as [|c prog IH]; intros d H; [exact H|]. cbn [fold_left]. apply IH. apply dprim_wf. exact H. Qed.
+Print Assumptions C18_invariant_programs.
+
+(* (2) values come back byte for byte — any bytes, no hypothesis on k or v — and other keys are untouched *)
+Theorem C18_get_after_set : forall d k v, dprim (fst (dprim d (HSet k v default_set_opt))) (HGet k) = (aset d k (VStr v), r_bulk v).
+Proof. exact get_after_set. Qed.
+Print Assumptions C18_get_after_set.
+Theorem C18_set_frame : forall d k v k2, bytes_eqb k2 k = false -> aget (fst (dprim d (HSet k v default_set_opt))) k2 = aget d k2.
+Proof. exact set_frame. Qed.
+Print Assumptions C18_set_frame.
+Theorem C18_hget_after_hset : forall d k f v, (aget d k = None \/ exists h, aget d k = Some (VHash h)) ->
+  snd (dprim (fst (dprim d (HHSet k f v false))) (HHGet k f)) = r_bulk v.
+Proof. exact hget_after_hset. Qed.
+Print Assumptions C18_hget_after_hset.
+
+(* (3) lists keep push / pop order *)
+Theorem C18_rpush_order : forall d k es l, es <> [] -> aget d k = Some (VList l) ->
+  snd (dprim (fst (dprim d (HRPush k es false))) (HLRange k 0 (-1))) = r_arr (l ++ es).
+Proof. exact lrange_after_rpush. Qed.
+Print Assumptions C18_rpush_order.
+Theorem C18_lpush_order : forall d k es l, es <> [] -> aget d k = Some (VList l) ->
+  snd (dprim (fst (dprim d (HLPush k es false))) (HLRange k 0 (-1))) = r_arr (rev es ++ l).
+Proof. exact lrange_after_lpush. Qed.
+Print Assumptions C18_lpush_order.
+Theorem C18_lpop_head : forall d k x l, aget d k = Some (VList (x :: l)) -> snd (dprim d (HLPop k 1)) = r_bulk x.
+Proof. exact lpop_head. Qed.
+Print Assumptions C18_lpop_head.
+
+(* (4) DEL / EXISTS / RENAME reflect exactly the keys written; renaming a key onto itself keeps it *)
+Theorem C18_exists : forall d k, snd (dprim d (HExists [k])) = r_int (if ahas d k then 1 else 0).
+Proof. exact exists_iff_written. Qed.
+Print Assumptions C18_exists.
+Theorem C18_del : forall d k, wf_db d -> aget (fst (dprim d (HDel [k]))) k = None.
+Proof. exact del_then_missing. Qed.
+Print Assumptions C18_del.
+Theorem C18_rename_same_key : forall d k v, aget d k = Some v -> dprim d (HRename k k false) = (d, r_ok).
+Proof. exact rename_same_key_keeps. Qed.
+Print Assumptions C18_rename_same_key.
+Theorem C18_rename_moves : forall d k n v, wf_db d -> aget d k = Some v -> bytes_eqb k n = false ->
+  let d' := fst (dprim d (HRename k n false)) in aget d' n = Some v /\ aget d' k = None.
+Proof. exact rename_moves. Qed.
+Print Assumptions C18_rename_moves.
+
+(* non-vacuity: a short program on the empty database; the invariant holds of the empty database *)
+Example C18_ex :
+  let prog := [HZAdd (B"z") [(FNum (2#1), B"b"); (FNum (1#1), B"a"); (FNum (2#1), B"a")] default_zadd_opt; HSAdd (B"s") [B"x"; B"x"; B"y"]; HSRem (B"s") [B"x"; B"y"]] in
+  let d := fold_left (fun dd c => fst (dprim dd c)) prog [] in
+  d = [(B"z", VZSet [(B"a", FNum (2#1)); (B"b", FNum (2#1))])] /\ wf_db [].
+Proof. split; [vm_compute; reflexivity|split; constructor]. Qed.
